@@ -5,7 +5,9 @@
    the coordinate maps and the first-order correctors; NOT true for WHFast's corrector2 and for EOS, see below);
    theorems (b) and (c) use no law at all and therefore hold for the binary64 operators bit for bit. *)
 From Coq Require Import ZArith List Bool Lia.
-From RV Require Import Common.Num C09.Model C09.Proofs C09.Run.
+From Coq Require Import Reals.
+From RV Require C04.Model.
+From RV Require Import Common.Num Common.RealNum C09.Model C09.Proofs C09.Run C09.Concrete.
 Import ListNotations.
 
 (* ------------------------------------------------------------------ (c) synchronize twice = once *)
@@ -98,17 +100,19 @@ Theorem C09_whfast_unsafe_eq_safe_observed :
 Proof. intros T N P J O dt c s0 keep n l1 l2 l3 l4 l5 h1 h2 h3. exact (unsafe_eq_safe_part N O dt l1 l2 l3 l4 l5 c h1 h2 keep n s0 h3). Qed.
 Print Assumptions C09_whfast_unsafe_eq_safe_observed.
 
-(* [w_var c = false] cannot be dropped: with variational particles and keep_unsynchronized = 1 the half drift of the
-   variation's centre of mass done in the MEGNO branch of part2 is thrown away with the restored cache, so it advances
-   at half speed.  Witness: an instance satisfying ALL the laws (free drift of the two centres of mass, everything
-   else the identity), 3 steps of dt = 2: position 3 instead of 6.  (Reproduced on the library: known finding.) *)
-Theorem C09_whfast_unsafe_eq_safe_variational_keep_refuted :
+(* Variational particles are outside the general theorem (their centre-of-mass drift and the MEGNO branch need laws of
+   their own).  On the law-abiding instance (free drift of the two centres of mass, everything else the identity) the
+   three modes agree: 3 steps of dt = 2 give (6, 6) with safe mode, with deferred synchronisation and with
+   keep_unsynchronized.  Until the fix "WHFast with keep_unsynchronized lost half of the drift of variational centres
+   of mass" (aa357c1) the last value was (6, 3): the copy-back of the cache in the MEGNO branch of part2 discarded
+   the half drift of the variation's centre of mass; the library probe for it is kept in the searcher. *)
+Theorem C09_whfast_variational_keep_agrees_on_witness :
   (forall j, from_inertial WToy (to_inertial_sync WToy j) = j) /\
   (forall j, drift WToy (half ZNum 2%Z) (drift WToy (half ZNum 2%Z) j) = drift WToy 2%Z j) /\
   (forall j, var_com WToy (half ZNum 2%Z) (var_com WToy (half ZNum 2%Z) j) = var_com WToy 2%Z j) /\
   w_init_ok (toy_cfg false true true) = true /\ coherent WToy toy0 /\
   toy_final true false true 3 = (6, 6)%Z /\ toy_final false false true 3 = (6, 6)%Z /\
-  toy_final false true true 3 = (6, 3)%Z.
+  toy_final false true true 3 = (6, 6)%Z /\ toy_final false true true 7 = toy_final true false true 7.
 Proof.
   repeat split; try (intros [x y]; unfold drift, half, two; cbn; f_equal; lia); try (vm_compute; reflexivity).
   left. reflexivity.
@@ -167,6 +171,101 @@ Theorem C09_eos_unsafe_eq_safe_under_exact_drift :
   e_sync O a0dt (iter n (e_part2 N O a0dt false) s0) = iter n (e_part2 N O a0dt true) s0.
 Proof. intros T N P O a0dt s0 n l1 l2 h. exact (e_unsafe_eq_safe N O a0dt l1 l2 n s0 h). Qed.
 Print Assumptions C09_eos_unsafe_eq_safe_under_exact_drift.
+
+(* ------------------------------------------------------------------ a fully proved concrete instance (no hypotheses on operators)
+   Operators: the exact-arithmetic drift and kick of src/integrator_leapfrog.c as modelled in C04/Model.v, ANY force law.
+   The WHFast driver with kepler := free drift, interaction := kick, identity coordinate maps is a drift-kick-drift
+   scheme with deferred half drifts; its safe-mode step is C04's leapfrog step.  All flow laws are proved (real
+   arithmetic), so deferred synchronisation = safe mode unconditionally, for every kernel branch of the driver, every
+   number of steps, keep_unsynchronized 0 or 1. *)
+Theorem C09_dkd_unsafe_eq_safe :
+  forall (acc : list (@C04.Model.part R) -> list (@C04.Model.vec R)) (dt : R) (c : wcfg) s0 n,
+  w_init_ok c = true -> w_var c = false -> coherent (DKD acc) s0 ->
+  w_sync RNum (DKD acc) dt (with_mode c false false) (iter (S n) (w_step RNum (DKD acc) dt (with_mode c false false)) s0)
+  = iter (S n) (w_step RNum (DKD acc) dt (with_mode c true false)) s0.
+Proof. exact dkd_unsafe_eq_safe. Qed.
+Print Assumptions C09_dkd_unsafe_eq_safe.
+
+Theorem C09_dkd_unsafe_eq_safe_observed :
+  forall (acc : list (@C04.Model.part R) -> list (@C04.Model.vec R)) (dt : R) (c : wcfg) s0 keep n,
+  w_init_ok c = true -> w_var c = false -> coherent (DKD acc) s0 ->
+  part (w_sync RNum (DKD acc) dt (with_mode c false keep) (iter n (w_step RNum (DKD acc) dt (with_mode c false keep)) s0))
+  = part (iter n (w_step RNum (DKD acc) dt (with_mode c true false)) s0).
+Proof. exact dkd_unsafe_eq_safe_observed. Qed.
+Print Assumptions C09_dkd_unsafe_eq_safe_observed.
+
+Theorem C09_dkd_safe_step_is_leapfrog :
+  forall (acc : list (@C04.Model.part R) -> list (@C04.Model.vec R)) (dt : R) ps,
+  part (w_step RNum (DKD acc) dt (dkd_cfg true) {| part := ps; pjh := ps; is_sync := true; recalc := false; alloc := false |})
+  = C04.Model.leapfrog_step RNum dt ps (acc (C04.Model.drift RNum (C04.Model.half RNum * dt)%R ps)).
+Proof. exact dkd_safe_step_is_leapfrog. Qed.
+Print Assumptions C09_dkd_safe_step_is_leapfrog.
+
+(* the MERCURIUS driver with a kick whose force law reads masses and positions only: kick-drift-kick with merged half
+   kicks, any operator in the middle of the step; unconditional. *)
+Theorem C09_kdk_unsafe_eq_safe :
+  forall accp enc (dt : R) s0 n, m_coherent s0 ->
+  m_sync RNum (KDK accp enc) dt (iter (S n) (m_step RNum (KDK accp enc) dt false) s0)
+  = iter (S n) (m_step RNum (KDK accp enc) dt true) s0.
+Proof. exact kdk_unsafe_eq_safe. Qed.
+Print Assumptions C09_kdk_unsafe_eq_safe.
+
+(* STILL ASSUMED for the true Wisdom-Holman operators (hypotheses of C09_whfast/saba/mercurius_unsafe_eq_safe):
+   - Kepler group law kepler a (kepler b j) = kepler (a+b) j at the arguments (dt/2, dt/2), (5dt/8, 3dt/8), (c0 dt, c0 dt):
+     C03 proves the f-g step exact on one orbit, the group law is not mechanised yet;
+   - from_inertial (to_inertial j) = j: C12 proves the OTHER composition (inverse after forward = id on inertial
+     coordinates); the composition needed here follows for these square linear maps but is not mechanised;
+   - corrector forward after inverse = id: the corrector words of C01 cancel letter by letter given the two laws
+     above and kick additivity (proved here: kick_add); not mechanised as a statement about states;
+   - NOT true, hence never assumed for the real code: corrector2 (see known finding), EOS drift/processors. *)
+
+(* ------------------------------------------------------------------ exact_finish_time = 1 (reb_check_exit synchronizes, then shortens dt) *)
+Theorem C09_whfast_exact_finish_eq_safe :
+  forall T (N : Num T) P J (O : @WOps T P J) dt dt' (c : wcfg) (s0 : @wst P J) n,
+  (forall j, from_inertial O (to_inertial_sync O j) = j) ->
+  (forall k j, corrector O true k (corrector O false k j) = j) ->
+  (forall j, corrector2 O true (corrector2 O false j) = j) ->
+  (forall j, drift O (half N dt) (drift O (half N dt) j) = drift O dt j) ->
+  (forall j, drift O (dt58 N dt) (drift O (dt38 N dt) j) = drift O dt j) ->
+  w_init_ok c = true -> w_var c = false -> coherent O s0 ->
+  w_integrate_exact N O dt dt' (S n) (with_mode c false false) s0
+  = w_step N O dt' (with_mode c true false) (iter (S n) (w_step N O dt (with_mode c true false)) s0).
+Proof. intros T N P J O dt dt' c s0 n. apply w_exact_finish. Qed.
+Print Assumptions C09_whfast_exact_finish_eq_safe.
+
+(* with keep_unsynchronized = 1 the synchronize before the shortened step leaves the cache half a step (of the OLD dt)
+   behind and the shortened step then applies a merged drift of the NEW dt: law-abiding instance, dt = 4, three full
+   steps, last step dt' = 2: 13 instead of 14.  (The Python layer documents exact finishing as incompatible with
+   keep_unsynchronized; the C library does not reject it.) *)
+Theorem C09_exact_finish_with_keep_unsynchronized_refuted :
+  toy_exact true false = (14, 0)%Z /\ toy_exact false false = (14, 0)%Z /\ toy_exact false true = (13, 0)%Z.
+Proof. repeat split; vm_compute; reflexivity. Qed.
+
+(* ------------------------------------------------------------------ WHFast512 (flag level; kernels opaque) *)
+Theorem C09_whfast512_sync_idempotent : forall T (N : Num T) P J (O : @XOps T P J) dt keep (s : @xst P J),
+  x_sync N O dt keep (x_sync N O dt keep s) = x_sync N O dt keep s.
+Proof. intros. apply x_sync_idem. Qed.
+Print Assumptions C09_whfast512_sync_idempotent.
+
+Theorem C09_whfast512_keep_unsync_transparent :
+  forall T (N : Num T) P J (O : @XOps T P J) dt gr (s0 : @xst P J) (w : list xcall),
+  let a := x_run N O dt true gr s0 w in
+  let b := x_run N O dt true gr s0 (x_steps_only w) in
+  xpjh a = xpjh b /\ x_is_sync a = x_is_sync b /\ xpart (x_sync N O dt true a) = xpart (x_sync N O dt true b).
+Proof.
+  intros T N P J O dt gr s0 w a b. pose proof (x_transparent N O dt gr w s0 s0 (Rx_refl s0)) as h. fold a b in h.
+  pose proof h as (h1 & h2 & _). repeat split; auto. apply (x_sync_part_Rx N O dt). exact h.
+Qed.
+Print Assumptions C09_whfast512_keep_unsync_transparent.
+
+Theorem C09_whfast512_sync_every_step_eq_deferred :
+  forall T (N : Num T) P J (O : @XOps T P J) dt gr (s0 : @xst P J) n,
+  (forall j, x_to_dh O (x_to_inertial O j) = j) ->
+  (forall j, xdrift O (xhalf N dt) (xdrift O (xhalf N dt) j) = xdrift O dt j) ->
+  x_sync N O dt false (iter n (x_step N O dt gr) s0)
+  = iter n (fun y => x_sync N O dt false (x_step N O dt gr y)) (x_sync N O dt false s0).
+Proof. intros T N P J O dt gr s0 n l1 l2. exact (x_unsafe_eq_safe N O dt gr l1 l2 n s0). Qed.
+Print Assumptions C09_whfast512_sync_every_step_eq_deferred.
 
 (* non-vacuity: the law-abiding instance meets every hypothesis of C09_whfast_unsafe_eq_safe with dt = 8
    (half = 4, 5dt/8 = 5, 3dt/8 = 3) on a state that is not a fixed point of the step *)
